@@ -81,6 +81,7 @@ class Wavefront:
         for field in fields:
             field_data = []
             for wavelength in wavelengths:
+                self._wavelength = wavelength
                 # Trace chief ray for field & find reference sphere properties
                 self._trace_chief_ray(field, wavelength)
 
@@ -173,7 +174,10 @@ class Wavefront:
             float: The optical path difference.
         """
         opd = self.optic.surface_group.opd[-1, :]
-        return opd - self._opd_image_to_xp(xc, yc, zc, r)
+        # optical (not geometric) path from the image surface back to the
+        # reference sphere
+        n_image = self.optic.image_surface.material_post.n(self._wavelength)
+        return opd - n_image * self._opd_image_to_xp(xc, yc, zc, r)
 
     def _correct_tilt(self, field, opd, x=None, y=None):
         """
